@@ -99,67 +99,7 @@ def run(rep):
     rng = rep.rng
     ok, why = common.lean_side(rep, 'C07')
     quick = rep.tier == 'quick'
-    I = B.info()
-    rep.coverage['translated_definitions'] = I['ndefs']
-    rep.coverage['translator_rejected'] = I['rejected']
-    try:
-        rep.coverage['generated_symmetry_lemmas'] = open(common.LEAN + '/Gen/BmkSymR.lean').read().count('theorem ')
-    except OSError:
-        pass
-    lines, meta = [], []
-    npts = 60 if quick else 1500
-    for i in range(npts):
-        fset = rng.choice(B.FORMULA_SETS)
-        m = B.random_m(rng)
-        th = B.theory(fset, m)
-        kw = B.random_kinematics(rng)
-        pt, kin = B.prepared(kw, varphi=rng.uniform(0, 2 * math.pi))
-        tok = B.tokens(kin, m)
-        for e in I['entries'][fset]:
-            try:
-                v = float(getattr(th, e)(kin))
-            except Exception as ex:
-                v = 'EXC:' + type(ex).__name__
-            lines.append('c06.eval %s %s %s' % (fset, e, tok))
-            meta.append(('entry', fset, e, v, kw, m))
-        # XS assembly
-        for target in (['U', 'L', 'T'] if fset in B.LP_SETS else ['U', 'T']):
-            kk = dict(kw)
-            if target != 'U':
-                kk['in2polarizationvector'] = target
-                kk['in2polarization'] = rng.choice([-1, 1])
-            if target == 'T':
-                kk['varFTn'] = rng.choice([-1, 1])
-            weighted = rng.random() < 0.3
-            import gepard as g
-            p2 = g.DataPoint(**kk)
-            try:
-                v = float(th.XS(p2, weighted=weighted))
-            except ValueError:
-                v = 'ValueError'
-            except Exception as ex:
-                v = 'EXC:' + type(ex).__name__
-            k2 = p2.copy()
-            if target == 'T':
-                k2.varphi = (1 - kk['varFTn']) * math.pi / 4.
-            k2.prepare()
-            lines.append('c06.xs %s %d %d %s %s' % (fset, 'ULT'.index(target), weighted, f2hex(kk.get('in2polarization', 0)), B.tokens(k2, m)))
-            meta.append(('xs', fset, target, v, kk, m))
-    out = common.run_driver(lines)
-    worst = 0.0
-    broken = []
-    for line, (kind, fset, e, v, kw, m), o in zip(lines, meta, out):
-        rep.case(kind, (fset, e, line[-40:]), sample=dict(kind=kind, set=fset, entry=e, value=v) if len(rep.coverage['samples']) < 4 else None)
-        if isinstance(v, str) or o in ('bad-op', 'no-such-entry', 'ValueError'):
-            if v == o:
-                continue
-            broken.append((kind, fset, e, v, o, kw, m))
-            continue
-        r = relerr(v, hex2f(o))
-        worst = max(worst, r)
-        if r > TOL:
-            broken.append((kind, fset, e, v, hex2f(o), kw, m))
-    rep.coverage['max_model_vs_code_relerr'] = worst
+    broken = B.entry_correspondence(rep, rng, 60 if quick else 1500, TOL)
     # symmetries on the real code: routinely (small), and as failing-input search when something broke
     n_or = 40 if quick else 1500
     if broken or not ok:
